@@ -42,7 +42,11 @@ CONSTANTS
   GuardPerClient,      \* design switch (the lock belongs to a client instead of the process: clients do not exclude each other)
   RearmPerRead,        \* design switch (deadline re-armed before every read: a flood keeps a call alive)
   NoCloseOnError,      \* design switch (socket not closed on the error path)
-  RearmAfterConnect    \* design switch (TCP: the deadline is taken again once the connection is established)
+  RearmAfterConnect,   \* design switch (TCP: the deadline is taken again once the connection is established)
+  UdpStrays            \* "none": strangers send to broadcast-path calls only (bounds the exhaustive configurations)
+                       \* "dropped": they also send to the port of a connected-UDP call - the socket is connected to the
+                       \*            controller, the kernel never shows them to the call
+                       \* "received": design switch (the directed UDP path on an UNconnected socket: they are read)
 
 VARIABLES now, pc, guard, dl, askedAt, q, open, pend, out, plan, strays, sends, hist
 
@@ -196,9 +200,9 @@ Deliver(p) ==
 \* a stranger (or another controller answering the same broadcast) sends to the call's port;
 \* only unconnected (broadcast path) sockets receive from strangers
 Stray(c, cls) ==
-  /\ pc[c] = "sent" /\ Path(c) = "bcast" /\ strays < MaxStray /\ now < dl[c]
+  /\ pc[c] = "sent" /\ (Path(c) = "bcast" \/ (Path(c) = "udp" /\ UdpStrays # "none")) /\ strays < MaxStray /\ now < dl[c]
   /\ strays' = strays + 1
-  /\ q' = [q EXCEPT ![c] = Append(@, [cls |-> cls, reqOf |-> None])]
+  /\ q' = IF Path(c) = "bcast" \/ UdpStrays = "received" THEN [q EXCEPT ![c] = Append(@, [cls |-> cls, reqOf |-> None])] ELSE q
   /\ Log([a |-> "Stray", c |-> c, t |-> now, rel |-> now - askedAt[c], cls |-> cls])
   /\ UNCHANGED <<now, pc, guard, dl, askedAt, open, pend, out, plan, sends>>
 
@@ -307,6 +311,11 @@ NoBindError == \A c \in Calls : out[c].kind # "binderr"
 AnsweredFirstValid(c) == plan[c] # <<>> /\ ~IsFault(plan[c]) /\ plan[c][1][1] = "valid" /\ plan[c][1][2] < T
 TimelyAnswerAccepted ==
   \A c \in Calls : (pc[c] = "done" /\ Normal(c) /\ AnsweredFirstValid(c) /\ strays = 0) => out[c].kind = "ok"
+
+\* C06 -- the directed UDP path uses a socket CONNECTED to the controller: whatever strangers send to the call's port, a
+\* controller that answers validly in time is heard (and nothing a stranger sends can end the call)
+StrangersCannotTouchDirected ==
+  \A c \in Calls : (pc[c] = "done" /\ Normal(c) /\ Path(c) = "udp" /\ AnsweredFirstValid(c)) => out[c].kind = "ok"
 
 \* C09 -- every call ends within its timeout of being served, never gives up early, releases its socket
 DeadlineFromAsk == \A c \in Calls : (askedAt[c] # -1 /\ pc[c] \in {"sent", "dialing"}) => dl[c] = askedAt[c] + T
